@@ -71,10 +71,38 @@ def gen(rng):
     return sc
 
 
+def second_interruption_scenarios(full):
+    """a complete suspension (request, release, helper plans, rewind) FIRST, then a second interruption -- a pause or another
+    suspension -- at every later arrival index before the next checkpoint: the second rewind must again replay everything
+    since the last checkpoint (the engine is as rewindable after a suspension as it was before)"""
+    import copy
+
+    from engine_common import M, seq
+
+    out = []
+    for with_plans in (False, True):
+        body = [M("open_run"), M("checkpoint"), M("null"), M("set", "m1", 1, group="g"), M("wait", None, group="g"), M("null"), M("null"), M("null"), M("null"),
+                M("create", None, name="primary"), M("read", "d1"), M("save"), M("null"), M("checkpoint"), M("null"), M("close_run")]
+        sus = {"a": "suspend", "fut": 0, "pre": seq(M("null")) if with_plans else None, "post": seq(M("null")) if with_plans else None, "just": None}
+        base = {"record_interruptions": False, "devices": {"m1": {"kind": "motor"}, "d1": {"kind": "det"}}, "plan": seq(*body),
+                "script": {"3": [sus], "5": [{"a": "release", "fut": 0}]}, "decisions": ["resume"] * 6 + ["halt"], "max_arrivals": 300}
+        n = len(E.run_scenario(E.number(copy.deepcopy(base)))["arrivals"])
+        ats = range(6, n) if full else range(6, n, 2)
+        for at in ats:
+            for second in ({"a": "pause", "defer": False}, {"a": "suspend", "fut": 1, "pre": None, "post": None, "just": None}):
+                sc = copy.deepcopy(base)
+                sc["script"].setdefault(str(at), []).append(second)
+                if second["a"] == "suspend":
+                    sc["script"].setdefault(str(at + 2), []).append({"a": "release", "fut": 1})
+                out.append(E.number(sc))
+    return out
+
+
 def run(ctx, model=True):
     STATS.clear()
     _GEN.sweep_cap = 40 if (ctx.tier == "thorough" or ctx.deep) else 10
-    res = E.run_property(ctx, "C04", oracle, gen=gen, quick=160, thorough=4000, model=model)
+    extra = second_interruption_scenarios(ctx.tier == "thorough" or ctx.deep)
+    res = E.run_property(ctx, "C04", oracle, gen=gen, quick=160, thorough=4000, model=model, extra_scenarios=extra)
     for k, v in STATS.items():
         res.count(k, v)
     res.rule += " | C04: plans mix checkpoints at varying spacing, clear_checkpoint, rewindable regions, stage/unstage, monitors, run boundaries (two runs in a row, run keys), pause messages; half of the plans are swept with one pause / suspension (pre/post plans) at EVERY arrival index, the others get 1-4 interruptions; pausable motor with NoReplayAllowed"
